@@ -818,37 +818,3 @@ func TestVerif_C18_bitmap(t *testing.T) {
 	}
 }
 
-// ---------- convertOnChainConfigToRMNHomeChainConfig ----------
-func TestVerif_C18_conv(t *testing.T) {
-	r := vNewRand(vSeed() + 1814)
-	n := vEnvInt("VERIF_N", 200)
-	sink := vOpenSink("C18_conv")
-	defer sink.Close()
-	g := &vC18Gen{r: r, off: vNewIntern()}
-	for i := 0; i < n; i++ {
-		cls := vPick(r, []string{"valid", "valid", "nil-bitmap", "big"})
-		resp := g.response(cls == "nil-bitmap", cls == "big")
-		in := cPair(g.vcCoq(resp.ActiveConfig), g.vcCoq(resp.CandidateConfig))
-		var out string
-		func() {
-			defer func() {
-				if recover() != nil {
-					out = "Panic"
-				}
-			}()
-			m := convertOnChainConfigToRMNHomeChainConfig(logger.Nop(), resp.ActiveConfig, resp.CandidateConfig)
-			keys := make([]uint64, 0, len(m))
-			byN := map[uint64]rmntypes.HomeConfig{}
-			for k, v := range m {
-				kn := vC18B32N(k[:])
-				keys = append(keys, kn)
-				byN[kn] = v
-			}
-			vSortU64(keys)
-			out = cApp("Ok", cMap(keys, func(k uint64) string { return cPair(cN(k), g.hcCoq(byN[k])) }))
-		}()
-		nt := !resp.ActiveConfig.ConfigDigest.IsEmpty() && len(resp.ActiveConfig.StaticConfig.Nodes) > 0 &&
-			len(resp.ActiveConfig.DynamicConfig.SourceChains) > 0
-		sink.Emit("conv", cls, nt, cPair(in, out), nil)
-	}
-}
